@@ -51,18 +51,18 @@ type Prog struct {
 	CHA      *callgraph.Graph
 	AllFuncs map[*ssa.Function]bool
 	// RepoFuncs: every function (incl. anonymous and synthetic wrappers with source) defined in the module.
-	RepoFuncs []*ssa.Function
-	callees   map[ssa.CallInstruction][]*ssa.Function
-	callers   map[*ssa.Function][]ssa.CallInstruction
-	NInstr    int
-	LoadS     float64
-	VTARounds int
-	NotAnalysed []string
-	ls          *Locksets
-	lo          *LockOrder
-	vf          *VFlow
-	bce         *BCE
-	units       map[*ssa.Function]map[*ssa.Function]bool
+	RepoFuncs    []*ssa.Function
+	callees      map[ssa.CallInstruction][]*ssa.Function
+	callers      map[*ssa.Function][]ssa.CallInstruction
+	NInstr       int
+	LoadS        float64
+	VTARounds    int
+	NotAnalysed  []string
+	ls           *Locksets
+	lo           *LockOrder
+	vf           *VFlow
+	bce          *BCE
+	units        map[*ssa.Function]map[*ssa.Function]bool
 	renamedKnown map[string]map[*ssa.Function]bool // per package: known functions found under a new name
 	fnCache      map[string]*ssa.Function
 }
